@@ -22,16 +22,83 @@ impl Property for Prop {
         "C20"
     }
     fn rule(&self) -> &'static str {
-        "lengths: key = payload length 0..=4000; for each: the four packet kinds x label kinds (6-byte, 3-byte, broadcast, re-use for start/complete) x seeded fragment id, protocol type >= 0x0600, total length, CRC; each well-formed description (GSE length consistent with its fields; intermediate payload >= 1 byte) is generated, compared byte for byte with the independent serialiser, parsed back (must equal the description), compared with what the encapsulator emits when driven to the same fields (complete packet; first fragment with the same split; intermediate / end from a context at the same position) and fed to the decapsulator (accepted with the same field values; first fragments are completed by a utils-generated end fragment on memories of 1, 3, 5 and 6 slots; one first fragment in eight carries the whole PDU so that the end fragment carries only the CRC). maxtotal: descriptions with total length 65530..=65535 for every label kind (18 packets each). Each of these comparisons is an evaluation; fingerprint = (kind, label kind, payload length)."
+        "lengths: key = payload length 0..=4000; for each: the four packet kinds x label kinds (6-byte, 3-byte, broadcast, re-use for start/complete) x seeded fragment id, protocol type >= 0x0600, total length, CRC; each well-formed description (GSE length consistent with its fields; intermediate payload >= 1 byte) is generated, compared byte for byte with the independent serialiser, parsed back (must equal the description), compared with what the encapsulator emits when driven to the same fields (complete packet; first fragment with the same split; intermediate / end from a context at the same position) and fed to the decapsulator (accepted with the same field values; first fragments are completed by a utils-generated end fragment on memories of 1, 3, 5 and 6 slots; one first fragment in eight carries the whole PDU so that the end fragment carries only the CRC). maxtotal: descriptions with total length 65530..=65535 for every label kind (18 packets each). ids: for EVERY fragment id X, two utils-generated trains in flight at once on X and a partner id (255 - X, X + 1, X + 128) on memories of 256, 255, 3 and 7 slots; one train's intermediate fragment carries all remaining bytes so that its end fragment carries only the CRC; both must be accepted and delivered with the same field values. Each of these comparisons is an evaluation; fingerprint = (kind, label kind, payload length)."
     }
     fn gens(&self, _cx: &Cx) -> Vec<Gen> {
-        vec![Gen { name: "lengths", count: 4001, exhaustive: true }, Gen { name: "maxtotal", count: 24, exhaustive: true }]
+        vec![Gen { name: "lengths", count: 4001, exhaustive: true }, Gen { name: "maxtotal", count: 24, exhaustive: true }, Gen { name: "ids", count: 256, exhaustive: true }]
     }
     fn run_key(&self, cx: &Cx, gen: &str, key: u64, rep: &mut Report) {
         let replay_s = format!("gen={} key={} seed={} profile={}", gen, key, cx.seed, cx.profile);
         let replay = || replay_s.clone();
         let mut rng = Rng::derive(cx.seed, fnv(gen.as_bytes()), key);
         let fr = FastRef::new();
+        if gen == "ids" {
+            // "for all fragment ids": two utils-generated trains in flight at the same time, on fragment id X = key and
+            // on a partner id (255 - X, X + 1, X + 128), on memories with one slot per id (256), one less (255) and
+            // few (3, 7) slots when the two ids do not share a slot.  Train 1: first | intermediate carrying ALL
+            // remaining bytes | end carrying only the CRC; train 2: first | intermediate | end with payload.
+            let x = key as u8;
+            for partner in [255 - x, x.wrapping_add(1), x.wrapping_add(128)] {
+                if partner == x {
+                    continue;
+                }
+                for slots in [256usize, 255, 3, 7] {
+                    if x as usize % slots == partner as usize % slots {
+                        continue;
+                    }
+                    let labels = [gen_label(&mut rng, 0), gen_label(&mut rng, 2)];
+                    let mut trains: Vec<(Vec<Vec<u8>>, Vec<u8>, u16, Label)> = Vec::new();
+                    for (ti, id) in [x, partner].iter().enumerate() {
+                        let plen = 6 + rng.below(40);
+                        let pdu = rng.bytes(plen);
+                        let label = labels[ti];
+                        let lb = label_bytes(&label);
+                        let ptype = gen_user_ptype(&mut rng);
+                        let total = (2 + lb.len() + plen) as u16;
+                        let a = 1 + rng.below(plen - 3);
+                        let b = if ti == 0 { plen } else { a + 1 + rng.below(plen - a - 1) };
+                        let crc = fr.gse(total, ptype, &lb, &pdu);
+                        let f = GseFirstFragPacket::new((3 + 2 + lb.len() + a) as u16, *id, total, ptype, label, &pdu[..a]);
+                        let i = GseIntermediatePacket::new((1 + b - a) as u16, *id, &pdu[a..b]);
+                        let e = GseEndFragPacket::new((1 + plen - b + 4) as u16, *id, &pdu[b..], crc);
+                        let mut fb = vec![0u8; 2 + 3 + 2 + lb.len() + a];
+                        let mut ib = vec![0u8; 2 + 1 + b - a];
+                        let mut eb = vec![0u8; 2 + 1 + plen - b + 4];
+                        rep.eval();
+                        if guard(|| { f.generate(&mut fb); i.generate(&mut ib); e.generate(&mut eb); }).is_err() {
+                            rep.violation("C20", "generate:ids".into(), || format!("generate panicked for frag id {}", id), &replay);
+                            return;
+                        }
+                        trains.push((vec![fb, ib, eb], pdu, ptype, label));
+                    }
+                    let mut dec = plain_dec(slots, 64, 3, 64, MandTable::none());
+                    // interleaved: F1 F2 I1 I2 E1 E2
+                    for step in 0..3 {
+                        for ti in 0..2 {
+                            let (pk, pdu, ptype, label) = &trains[ti];
+                            rep.eval();
+                            let d = dec_guard(&mut dec, &pk[step]);
+                            let ok = match &d {
+                                Ok(Ok((DecapStatus::FragmentedPkt(m), c))) if step < 2 => *c == pk[step].len() && m.protocol_type() == *ptype && m.label() == *label,
+                                Ok(Ok((DecapStatus::CompletedPkt(b, m), c))) if step == 2 => *c == pk[step].len() && m.pdu_len() == pdu.len() && b[..pdu.len()] == pdu[..] && m.protocol_type() == *ptype && m.label() == *label,
+                                _ => false,
+                            };
+                            if !ok {
+                                let id = if ti == 0 { x } else { partner };
+                                rep.violation("C20", format!("decap-differs:two-ids-in-flight:{}:{}", ["first", "intermediate", "end"][step], if ti == 0 { "end-carries-only-crc" } else { "plain" }), || format!("{}-slot memory, fragment ids {} and {} in flight: decap(generate({} of id {})) = {}", slots, x, partner, ["first", "intermediate", "end"][step], id, dec_res_str(&d)), &replay);
+                                return;
+                            }
+                            if let Ok(Ok((DecapStatus::CompletedPkt(b, _), _))) = d {
+                                let _ = dec.provision_storage(b);
+                            }
+                        }
+                    }
+                    rep.count("c20.ids");
+                    rep.nontrivial(mix(5, mix(key, mix(partner as u64, slots as u64))));
+                }
+            }
+            return;
+        }
         if gen == "maxtotal" {
             // descriptions whose total length is at the top of the 16-bit range (65530..=65535): a first fragment
             // (label written in full / broadcast / re-use), sixteen intermediate fragments and an end fragment, all
@@ -306,7 +373,7 @@ impl Property for Prop {
         }
     }
     fn floors(&self, _cx: &Cx, rep: &mut Report) {
-        for k in ["c20.complete", "c20.first", "c20.intermediate", "c20.end", "c20.maxtotal"] {
+        for k in ["c20.complete", "c20.first", "c20.intermediate", "c20.end", "c20.maxtotal", "c20.ids"] {
             if rep.get(k) == 0 {
                 rep.floors_missing.push(format!("C20 floor: counter {} is 0", k));
             }
